@@ -155,6 +155,21 @@ theorem pinned_no_reply (cs : List Bytes) (cb : Request → CbOutcome) (t : Byte
   simp only [Bool.false_eq_true, if_false]
   rw [encode_none_of_gt r (by omega)]
 
+/-- What a socket delivers: a read returns at least one byte (or the end of the stream); such reads
+    have no run of zero-length reads at all (`Sasl.stallFree_of_nonempty`). So for connections (the property's "all byte streams a client can send, in any
+    fragmentation") the server's reply carries exactly the verdict, whatever the fragmentation. -/
+theorem socket_reply_decodable (cs : List Bytes) (cb : Request → CbOutcome) (t : Bytes) (h : ∀ c ∈ cs, c ≠ []) :
+    ∀ reply ∈ (handle true cs cb t).replies,
+      (∃ m, Response.decode reply = some ⟨verdict cs cb, m⟩) ∧
+      Pam.verdictOfReply reply = (if verdict cs cb then Pam.PAM_SUCCESS else Pam.PAM_AUTH_ERR) :=
+  reply_decodable cs cb t (stallFree_of_nonempty cs h 0)
+
+theorem socket_fragmentation_irrelevant (clip : Bool) (cs ds : List Bytes) (cb : Request → CbOutcome) (t : Bytes)
+    (h : cs.flatten = ds.flatten) (hc : ∀ c ∈ cs, c ≠ []) (hd : ∀ c ∈ ds, c ≠ []) :
+    handle clip cs cb t = handle clip ds cb t :=
+  fragmentation_irrelevant clip cs ds cb t h (stallFree_of_nonempty cs hc 0) (stallFree_of_nonempty ds hd 0)
+
+
 /- Non-vacuity: a fragmented well-formed request, approving callback. -/
 example : (handle true [[0, 1, 97, 0], [1, 98, 0, 0, 0], [0]] (fun _ => ⟨true, [104, 105], none⟩) []).replies
     = [[0, 5, 79, 75, 32, 104, 105]] := by
